@@ -45,15 +45,16 @@ def fams_for(prop, quick):
             # 1200b parts at both extremes of the type, 12010 the same for lengths, 121xx inherited default under a level adding one restriction kind
             f += [12003, 12004, 12010, 12111, 12102, 12105]
             # 1202b / 12030 / 1204f representation limits as range / length bounds; 102xx histories of one typedef in one compilation
-            f += [12021, 12023, 12024, 12030, 12041, 10201, 10202, 10203, 10205]
+            f += [12023, 12024, 12030, 12041, 10201, 10202, 10203, 10205]
             # 122xx every probe lexeme of a type (incl. multi-byte strings, lexical variants, anchoring probes) as default at every level
-            f += [12201, 12202, 12203, 12204, 12206, 12207, 12210, 12211, 12214, 12216, 12218, 12220]
+            f += [12201, 12203, 12204, 12206, 12210, 12211, 12214, 12218, 12220]
+            f += [12050]     # base-only substatements (fraction-digits) on a typedef reference
             rand += [11001]
         else:
             f += [10000 + i for i in (1, 2, 3, 4, 5, 6, 11, 12, 13, 21, 22)] + [10110 + i for i in range(1, 9)] + [10120 + i for i in range(1, 7)] + [10131, 10132, 10133, 10140]
             f += [12001, 12002, 12003, 12004, 12010, 12101, 12102, 12103, 12104, 12105]
             f += [12020 + i for i in range(1, 9)] + [12030] + [12040 + i for i in range(1, 7)] + [10200 + i for i in range(1, 8)]
-            f += [12200 + i for i in range(1, 22)]
+            f += [12200 + i for i in range(1, 22)] + [12050]
             rand += list(range(11001, 11007))
     else:
         f = [8000 + i for i in range(1, 9)] + [8010 + i for i in range(1, 7)] + [8020, 8021, 8022]
@@ -172,9 +173,10 @@ def compare(ctx, vec, obs, sites, found):
         rep(dict(site="compile", kind=kind, want="no-crash", why="panic"), "compiler panicked on " + describe(ch), dict(panic=obs["panic"]))
         return 1
     # the module set compiles iff every sibling chain does (g* = verdict over the whole group)
-    if not vec["gj"]:
+    # where the compile verdict is not judged, what does compile is still probed (e.g. a derived type may not accept what its base rejects)
+    if not vec["gj"] and not (vec["gok"] and obs["compiled"]):
         return 0
-    judged += 1 if vec["mi"] == 1 else 0
+    judged += 1 if vec["mi"] == 1 and vec["gj"] else 0
     if vec["gok"] != obs["compiled"]:
         if "compile" in sites and vec["mi"] == 1:
             chains = [ch] + vec["sibs"]
@@ -191,7 +193,7 @@ def compare(ctx, vec, obs, sites, found):
     if not vec["gok"]:
         return judged
     judged += 1
-    if (vec["hasDef"] != obs["hasDef"] or (vec["hasDef"] and vec["def"] != obs["def"])) and "default" in sites:
+    if vec["gj"] and (vec["hasDef"] != obs["hasDef"] or (vec["hasDef"] and vec["def"] != obs["def"])) and "default" in sites:
         rep(dict(site="default", kind=kind, want="default" if vec["hasDef"] else "no-default"), "Default() of " + describe(ch),
             dict(want=dict(hasDef=vec["hasDef"], default=txt(vec["def"])), got=dict(hasDef=obs["hasDef"], default=txt(obs["def"]))))
     # every pass of the harness (kept errors inspected after the pass; forward through Type().Validate, reverse through
